@@ -107,14 +107,27 @@ def run(ctx: Ctx) -> dict:
         for seed in range(per // 2):
             ops.append({"op": "iban.random", "country": cps(cc), "seed": ctx.seed * 100003 + seed,
                         "use_registry": bool(seed % 2)})
+        # the BBAN-level builder, with components the caller leaves out altogether (not passed = nothing
+        # supplied = zeros): what it builds must validate nationally like everything else
+        for i in range(6 if ctx.quick else 60):
+            bank = c08.field_chars(row, "bank_code", rng, wb)
+            acct = c08.field_chars(row, "account_code", rng, rng.choice([wa, max(wa - 1, 1)]))
+            omit = [["branch"], ["branch"], [], ["bank"], ["acct"], ["branch", "bank"]][i % 6]
+            ops.append({"op": "bban.from_components", "cc": cps(cc), "bank": [] if "bank" in omit else cps(bank),
+                        "branch": [] if "branch" in omit or not wr or i % 2 else cps(c08.field_chars(row, "branch_code", rng, wr)),
+                        "acct": [] if "acct" in omit else cps(acct), "omit": omit})
     events = calls.execute(ctx, ops, "c09gen")
-    gen_events = [e for e in events if e["op"] == "iban.generate"]
+    gen_events = [e for e in events if e["op"] in ("iban.generate", "bban.from_components")]
     calls.report(ctx, [m for m in calls.validate(ctx, "TraceGenerate", gen_events, env, "c09gen", per_shard=3000)
                        if m[1] in CLAUSES], None, keyfn)
     # every IBAN the library built or drew goes back in with national validation on
     back = []
     for e in events:
-        if e["out"]["k"] == "ok":
+        if e["out"]["k"] == "ok" and e["op"] == "bban.from_components":
+            b = text(e["out"]["val"])
+            back.append({"op": "iban.new", "t": cps(text(e["cc"]) + gen.check_digits(text(e["cc"]), b) + b)
+                         if b.isascii() and b.isalnum() else e["out"]["val"], "vb": True, "from": e["op"]})
+        elif e["out"]["k"] == "ok":
             back.append({"op": "iban.new", "t": e["out"]["val"], "vb": True, "from": e["op"]})
         elif e["op"] == "iban.random" and not e["out"].get("lib"):
             ctx.violate("non-library-exception", keyfn(e, "non-library-exception"), calls.describe_event(e))
